@@ -57,7 +57,11 @@ lazyA
 
 ` + "```go&#67;A x&amp;A\nfencedA\n```" + `
 
-<div>htmlA</div>
+<DIV class="a">htmlA</DIV>
+
+<Section>
+secA
+</Section>
 
 ***
 
@@ -130,7 +134,11 @@ lazyB
 
 ` + "~~~~rb&#x63;B y&lt;B\nfencedB\n~~~~" + `
 
-<div>htmlB</div>
+<Div id="b">htmlB</Div>
+
+<TABLE>
+<TR><TD>cellB</TD></TR>
+</TABLE>
 
 ___
 
